@@ -226,7 +226,7 @@ def validate(ctx, log, want, cfg="Server_trace.cfg", module="TraceServer", oracl
     def foreign(r):
         for x in r:
             p = x.get("p")
-            if isinstance(p, list) and len(p) == 2 and (p[0] == 0 or p[1] == ""):
+            if isinstance(p, list) and len(p) == 2 and p[1] == "":
                 return x
         return None
     remaining = []
